@@ -111,10 +111,24 @@ pub struct ComputingForwardEdges {
     pub callee_queries:
         scc::HashMap<QueryID, Option<Observation>, FxBuildHasher>,
     pub callee_order: RwLock<CalleeOrder>,
+
+    /// How many requests for each callee are in flight. The same callee can
+    /// be requested several times by one caller (concurrently, or again after
+    /// it has completed); the registration belongs to all of them, so an
+    /// abandoned request may only take it back when it is the last one and
+    /// nobody has observed the callee.
+    pub in_flight: scc::HashMap<QueryID, usize, FxBuildHasher>,
 }
 
 impl QueryComputing {
     pub fn register_calee(&self, callee: &QueryID) {
+        match self.callee_info.in_flight.entry_sync(*callee) {
+            Entry::Occupied(mut entry) => *entry.get_mut() += 1,
+            Entry::Vacant(entry) => {
+                entry.insert_entry(1);
+            }
+        }
+
         if self.callee_info.callee_queries.contains_sync(callee) {
             return;
         }
@@ -138,7 +152,43 @@ impl QueryComputing {
         self.callee_info.callee_order.write().end_unordered_group();
     }
 
+    /// One request for `callee` is over (completed or abandoned). Returns
+    /// `true` if it was the last one in flight.
+    pub fn finish_callee(&self, callee: &QueryID) -> bool {
+        match self.callee_info.in_flight.entry_sync(*callee) {
+            Entry::Occupied(mut entry) => {
+                *entry.get_mut() -= 1;
+
+                if *entry.get() == 0 {
+                    let _ = entry.remove_entry();
+                    true
+                } else {
+                    false
+                }
+            }
+
+            // cleared by `clear_dependencies` in the meantime
+            Entry::Vacant(_) => true,
+        }
+    }
+
     pub fn abort_callee(&self, callee: &QueryID) {
+        // another request for the same callee is still running and will
+        // either observe it or take the registration back itself
+        if !self.finish_callee(callee) {
+            return;
+        }
+
+        // a request for the same callee has completed: the dependency is real
+        let observed = self
+            .callee_info
+            .callee_queries
+            .read_sync(callee, |_, observation| observation.is_some());
+
+        if observed != Some(false) {
+            return;
+        }
+
         assert!(self.callee_info.callee_queries.remove_sync(callee).is_some());
 
         let mut callee_order = self.callee_info.callee_order.write();
@@ -149,6 +199,7 @@ impl QueryComputing {
     pub fn clear_dependencies(&self) {
         self.callee_info.callee_queries.clear_sync();
         self.callee_info.callee_order.write().clear();
+        self.callee_info.in_flight.clear_sync();
     }
 
     pub fn mark_scc(&self) {
@@ -516,6 +567,7 @@ impl<C: Config, Q: Query> Snapshot<C, Q> {
                     FxBuildHasher::default(),
                 ),
                 callee_order: RwLock::new(CalleeOrder::default()),
+                in_flight: scc::HashMap::with_hasher(FxBuildHasher::default()),
             },
 
             query_kind,
